@@ -7,6 +7,7 @@
 package c13
 
 import (
+	"bytes"
 	"fmt"
 	"os"
 	"runtime"
@@ -62,6 +63,43 @@ func responseWriterBlocked() bool {
 	return false
 }
 
+// wsPlayer: one more RTSP-over-WebSocket player of the stream; its messages are read and dropped
+func wsPlayer(t *testing.T, addr, base string) func() {
+	w, err := vclient.DialWS(addr, "/streams/tear", "rtsp")
+	if err != nil || w.Status != 101 {
+		return nil
+	}
+	reqs := []string{"OPTIONS " + base, "DESCRIBE " + base, "SETUP " + base + "/streamid=0", "PLAY " + base}
+	for i, r := range reqs {
+		extra := ""
+		if i == 1 {
+			extra = "Accept: application/sdp\r\n"
+		}
+		if i == 2 {
+			extra = "Transport: RTP/AVP/TCP;unicast;interleaved=0-1\r\n"
+		}
+		w.WriteMessage(2, []byte(fmt.Sprintf("%s RTSP/1.0\r\nCSeq: %d\r\n%s\r\n", r, i+1, extra)))
+		for { // wait for the response
+			op, p, err := w.ReadMessage(5 * time.Second)
+			if err != nil || op == 8 {
+				w.Close()
+				return nil
+			}
+			if it := vclient.ParseRTSPMessage(p); it.Kind == "response" {
+				break
+			}
+		}
+	}
+	go func() {
+		for {
+			if op, _, err := w.ReadMessage(5 * time.Second); err != nil || op == 8 {
+				return
+			}
+		}
+	}()
+	return w.Close
+}
+
 func TestTear(t *testing.T) {
 	srv, err := vsrv.Start(false, false)
 	if err != nil {
@@ -92,8 +130,23 @@ func TestTear(t *testing.T) {
 	var gmu sync.Mutex
 	var gatePoint atomic.Value // which hook point the next armed gate closes at
 	gatePoint.Store("frame.prefix")
+	var changedWhileParked int32
 	vhook.SetHandler(func(p string, x interface{}) {
-		if p != gatePoint.Load().(string) || !atomic.CompareAndSwapInt32(&armed, 1, 0) {
+		if p != gatePoint.Load().(string) {
+			return
+		}
+		if p == "ws.write" { // only a response about to be written is parked here
+			b, _ := x.([]byte)
+			if !bytes.HasPrefix(b, []byte("RTSP/1.0")) || !atomic.CompareAndSwapInt32(&armed, 1, 0) {
+				return
+			}
+			snap := append([]byte(nil), b...)
+			defer func() {
+				if !bytes.Equal(snap, b) {
+					atomic.AddInt32(&changedWhileParked, 1)
+				}
+			}()
+		} else if !atomic.CompareAndSwapInt32(&armed, 1, 0) {
 			return
 		}
 		gmu.Lock()
@@ -109,6 +162,7 @@ func TestTear(t *testing.T) {
 	base := "rtsp://" + srv.Addr + "/tear"
 	tid := 0
 	gatedTotal := 0
+	pooled := 0
 	for _, transport := range []string{"tcp", "ws"} {
 		for round := 0; round < 2; round++ {
 			tid++
@@ -247,6 +301,45 @@ func TestTear(t *testing.T) {
 					}
 				}
 			}
+			// third window (WebSocket): the response is parked at the entry of the WebSocket write - encoded, on its way
+			// out - while the media writers of this and of two more WebSocket players keep taking buffers from the
+			// shared pool; the message that goes out must still be the response (PooledWrite.tla: Exclusive)
+			if transport == "ws" {
+				var closers []func()
+				for i := 0; i < 2; i++ {
+					if cl := wsPlayer(t, srv.Addr, base); cl != nil {
+						closers = append(closers, cl)
+					}
+				}
+				prev := runtime.GOMAXPROCS(4) // few Ps: a buffer given back on one of them is soon taken again
+				for k := 0; k < overlaps/4; k++ {
+					gmu.Lock()
+					release = make(chan struct{})
+					rel := release
+					gmu.Unlock()
+					gatePoint.Store("ws.write")
+					atomic.StoreInt32(&armed, 1)
+					n := send("OPTIONS", base, nil)
+					cseqs = append(cseqs, n)
+					select {
+					case <-parked:
+						gated++
+						pooled++
+						time.Sleep(4 * time.Millisecond)
+					case <-time.After(2 * time.Second):
+						atomic.StoreInt32(&armed, 0)
+					}
+					close(rel)
+					gatePoint.Store("frame.prefix")
+					if !waitResp(n) {
+						break
+					}
+				}
+				runtime.GOMAXPROCS(prev)
+				for _, cl := range closers {
+					cl()
+				}
+			}
 			gatedTotal += gated
 			send("TEARDOWN", base, nil)
 			closeFn()
@@ -278,5 +371,6 @@ func TestTear(t *testing.T) {
 			out.Put(map[string]interface{}{"t": tid, "e": "end", "cseqs": cseqs[:len(cseqs)-0]})
 		}
 	}
-	vio.WriteJSON(t, "VERIF_OUT2", map[string]interface{}{"executions": tid, "gated_overlaps": gatedTotal})
+	vio.WriteJSON(t, "VERIF_OUT2", map[string]interface{}{"executions": tid, "gated_overlaps": gatedTotal, "parked_at_ws_write": pooled,
+		"changed_while_parked": atomic.LoadInt32(&changedWhileParked)})
 }
